@@ -349,6 +349,8 @@ def tw_grid(g):
         return ("prim", "getitem2", [tw_grid(g[1]), tw_idx(g[2]), tw_idx(g[3])])
     if k == "trap":
         return ("look", "trap", g[1])
+    if k == "special":
+        return ("look", "special", g[1])
     raise ValueError(g)
 
 
@@ -411,7 +413,8 @@ def default_move_spec():
     A = Grid.from_positions([0.0, 2.0, 10.0], [0.0, 10.0])
     B = Grid.from_positions([20.0, 24.0], [1.0, 3.0])
     S = Grid.from_positions([-5.0, -4.0], [7.5])
-    layout = Layout({"A": A, "B": B}, {"A"}, {"A", "B"}, {"A"}, special_grid={"S": S})
+    # "B" names a static trap zone AND (a different grid of the same shape) a special grid
+    layout = Layout({"A": A, "B": B}, {"A"}, {"A", "B"}, {"A"}, special_grid={"S": S, "B": B.shift(0.5, 0.25)})
     # "n2" and "fh" exist in both constant tables, with different values
     return ArchSpec(layout=layout, float_constants={"f0": 0.0, "fh": 0.5, "f3": 3.0, "n2": 2.5},
                     int_constants={"n0": 0, "n1": 1, "n2": 2, "fh": 7})
@@ -425,13 +428,13 @@ def second_move_spec():
     A = Grid.from_positions([100.0, 104.0, 110.0], [-50.0, -45.0])
     B = Grid.from_positions([0.0, 1.0], [-1.0, 1.0])
     S = Grid.from_positions([5.0, 9.0], [0.5])
-    layout = Layout({"A": A, "B": B}, {"A"}, {"A", "B"}, {"A"}, special_grid={"S": S})
+    layout = Layout({"A": A, "B": B}, {"A"}, {"A", "B"}, {"A"}, special_grid={"S": S, "B": B.shift(-0.5, 2.0)})
     return ArchSpec(layout=layout, float_constants={"f0": 1.0, "fh": 1.5, "f3": 5.0, "n2": 0.5},
                     int_constants={"n0": 1, "n1": 2, "n2": 3, "fh": 4})
 
 
 ZONE_SHAPES = {"A": (3, 2), "B": (2, 2), "S": (2, 1)}
-KNOWN = {"trap": ["A", "B"], "special": ["S"], "intC": ["n0", "n1", "n2"], "floatC": ["f0", "fh", "f3"]}
+KNOWN = {"trap": ["A", "B"], "special": ["S", "B"], "intC": ["n0", "n1", "n2"], "floatC": ["f0", "fh", "f3"]}
 
 
 def L(v):
@@ -472,6 +475,9 @@ class MoveGen:
         if self.consumed and kind in ("intC", "floatC") and self.rng.random() < self.feat["wrong_kind"]:
             # an id of the other constant table (may or may not exist in this one)
             return self.rng.choice(KNOWN["floatC" if kind == "intC" else "intC"])
+        if self.consumed and kind in ("trap", "special") and self.rng.random() < self.feat["wrong_kind"]:
+            # a name of the other grid table (it does not exist in this one: the lookup fails on every route)
+            return "S" if kind == "trap" else "A"
         return self.rng.choice(KNOWN[kind])
 
     def int_e(self, env, depth=2, typed=False):
@@ -606,6 +612,9 @@ class MoveGen:
             if self.rng.random() < 0.35:
                 # the very same call twice in one group (identical callee, operands and keyword spelling)
                 members.insert(self.rng.randrange(0, len(members) + 1), members[self.rng.randrange(len(members))])
+            if self.rng.random() < 0.25:
+                # the same group played twice in one block, a gate in between
+                return [("par", members), ("eff", "global_rz", [L(Fraction(self.rng.randrange(1, 5), 2))]), ("par", members)]
             return [("par", members)]
         if r < 0.75 and depth > 0:
             c = self.bool_e(env)
